@@ -9,7 +9,8 @@ from .run import Check, Section
 NAMES = ["S", "S_B", "A_B", "x_1", "S_1", "T", "HG001", "HG001_B", "T+N", "K(2)", "NA07.1", "NA07_1", "a|b", "x*"]  # prefix-related names and names holding regular-expression metacharacters
 POPS = ["YRI", "CEU", "AMR"]
 POPS_SUFFIXED = ["pop_1", "pop_2", "AFR_1"]  # labels that look like the end of a strand header (msprime-style population names)
-PALETTE = {"YRI": "red", "CEU": "blue", "AMR": "green", "pop_1": "orange", "pop_2": "purple", "AFR_1": "cyan"}
+POPS_LONG = ["African_W", "African_E", "NativeAmerican"]  # free text of any length; two of them share their first seven characters
+PALETTE = {"YRI": "red", "CEU": "blue", "AMR": "green", "pop_1": "orange", "pop_2": "purple", "AFR_1": "cyan", "African_W": "magenta", "African_E": "gold", "NativeAmerican": "teal"}
 _dir = None
 
 
@@ -43,7 +44,7 @@ def gen(rng, tier):
                 rng.shuffle(o)
             chroms = o
         lines = []
-        pops = POPS_SUFFIXED if i % 5 == 2 else POPS
+        pops = POPS_SUFFIXED if i % 5 == 2 else (POPS_LONG if i % 5 == 4 else POPS)
         last_cm = {}  # chromosome -> the cM ends of the last block of every strand
         for s in samples:
             twin = rng.random() < 0.12  # an unadmixed founder: both strands identical, block for block
@@ -196,7 +197,7 @@ def gen_plot(rng, tier):
             body = [i for i, l in enumerate(c["lines"]) if len(l["t"]) > 1]
             for i in sorted(rng.sample(body, min(len(body), rng.randint(1, 3))), reverse=True):
                 l = c["lines"][i]
-                pop = rng.choice([p for p in (POPS_SUFFIXED if l["t"][0] in POPS_SUFFIXED else POPS) if p != l["t"][0]])
+                pop = rng.choice([p for p in (POPS_SUFFIXED if l["t"][0] in POPS_SUFFIXED else (POPS_LONG if l["t"][0] in POPS_LONG else POPS)) if p != l["t"][0]])
                 cm = l["cm"] + 50
                 c["lines"].insert(i + 1, {"t": [pop, l["t"][1], str(int(l["t"][2]) + 1), f"{cm/10000:.4f}"], "cm": cm})
             for e in c["ends"] or []:
